@@ -22,6 +22,10 @@ _E = sys.monitoring.events
 
 RUNNABLE, BLOCKED, DONE = "R", "B", "D"
 
+# functions whose pre-emption points are counted one by one (reach measure: which bytecode
+# boundaries of the critical code were actually used for a thread switch)
+COVER_FUNCS = frozenset(("_generate_request_id", "get_conn", "do_request"))
+
 _SIM = None            # the ThreadSim that is running now (or None)
 _INSTRUMENTED = {}     # module name -> number of code objects
 _tool_ready = False
@@ -45,7 +49,7 @@ def _on_instruction(code, offset):
     t = sim.by_ident.get(_thread.get_ident())
     if t is None:
         return None
-    sim._on_step(t, code)
+    sim._on_step(t, code, offset)
     return None
 
 
@@ -104,6 +108,19 @@ def load_instrumented(modname):
 
 def instrumented_counts():
     return dict(_INSTRUMENTED)
+
+
+def cover_totals():
+    """{function name: number of bytecode instructions (= pre-emption points) it has}"""
+    import dis
+    out = {}
+    for modname in _INSTRUMENTED:
+        spec = importlib.util.find_spec(modname)
+        code = spec.loader.get_code(modname)
+        for co in _walk_code(code):
+            if co.co_name in COVER_FUNCS:
+                out[co.co_name] = out.get(co.co_name, 0) + sum(1 for _ in dis.get_instructions(co))
+    return out
 
 
 class SimThread:
@@ -311,7 +328,7 @@ class ThreadSim:
         t.steps += 1
         self.back.release()
 
-    def _on_step(self, t, code):
+    def _on_step(self, t, code, offset=-1):
         t.steps += 1
         self.total_steps += 1
         if t.steps > self.STEP_BUDGET:
@@ -339,6 +356,8 @@ class ThreadSim:
             st["preempt_lock_held"] += 1
         if code.co_name in self.target_names:
             st["preempt_in_target"] += 1
+        if code.co_name in COVER_FUNCS:
+            st[f"pp.{code.co_name}.{offset}"] = 1
         self.next_hint = cand
         self._yield(t)
 
